@@ -1,12 +1,19 @@
 /-
   C12 — datum sequences: concatenation, trivia insensitivity, terminating iteration.
 
-  Open (LexprModel/Proofs/Progress.lean): `C12_progress`, `C12_terminates`.
-  Proved here: the lexer-level trivia theorem — any string of whitespace and complete line comments
+  Fully proved (LexprModel/Proofs/Progress.lean, imported here), for every configuration and state:
+   * `rest_suffix`: every call only consumes input (the remaining input is a suffix of what it was);
+   * `C12_progress`: every successful item and every syntax error of `next_value` / `next_datum`
+     strictly consumes input; `C12_none_at_end`: `None` is returned only at the end of the input;
+   * `C12_terminates`: iterating next_value, next_datum, value_iter, datum_iter or Iterator for Parser on
+     a non-failing source yields at most `length` items followed by the end marker — no fuel, no I/O
+     item, the cap is never what stops it; `io_error_faulty`: an I/O error implies a failing source.
+  (Agreement of the four iteration styles: `C10_streams` in Props/C10.)
+  Proved here in addition: the lexer-level trivia theorem — any string of whitespace and complete line comments
   in front of a token is skipped entirely, whatever it contains — and that every trivia byte ends a
   symbol in both symbol scanners (the defect class behind `foo<FF>bar`).
 -/
-import LexprModel.Lex
+import LexprModel.Proofs.Progress
 namespace Lexpr
 namespace Parse
 
